@@ -357,6 +357,9 @@ type Step struct {
 	Kind string `json:"kind"` // "msg" | "scs" (Set Chunk Size) | "agg"
 	M    M      `json:"m"`
 	Fmt  uint8  `json:"fmt"`
+	// ContFmt0: the continuation chunks of this (type-0) message repeat the full type-0 header instead of type 3
+	// ("header format choice per chunk"; continuation chunks SHOULD be type 3, a repeated full header is legal)
+	ContFmt0 bool `json:"cont_fmt0,omitempty"`
 	// for scs
 	NewSize int `json:"new_size,omitempty"`
 	// for agg: sub-messages (timestamps relative to the aggregate's own ts)
@@ -503,6 +506,9 @@ func genRead(t *rapid.T) ReadCase {
 				wish = 0
 			}
 			step.Kind, step.M, step.Fmt = kind, m, uint8(wish)
+			if kind == "msg" && wish == 0 && m.Len > cs && rapid.IntRange(0, 4).Draw(t, "contFmt0") == 0 {
+				step.ContFmt0 = true
+			}
 			field := m.Ts
 			if wish != 0 {
 				field = m.Ts - st.ts
@@ -576,7 +582,9 @@ func runRead(c ReadCase) *pbt.Violation {
 					panic(pbt.HarnessError{Msg: fmt.Sprintf("generator produced a format the spec does not allow: group %d step %+v allowed=%v", gi, s, w.AllowedFmts(m))})
 				}
 			}
-			ps = append(ps, &pend{p: w.Begin(m, f), step: s, msg: m})
+			pp := w.Begin(m, f)
+			pp.ContFmt0 = s.ContFmt0 && s.Kind == "msg" && f == 0
+			ps = append(ps, &pend{p: pp, step: s, msg: m})
 		}
 		emit := func(p *pend) {
 			wire = append(wire, p.p.Next()...)
@@ -652,6 +660,10 @@ func classifyRead(c ReadCase) (bool, []string) {
 				nmsg++
 			default:
 				nmsg++
+			}
+			if s.ContFmt0 {
+				labels = append(labels, "continuation-chunks-with-type-0-header")
+				nt = true
 			}
 			if s.Kind != "scs" {
 				labels = append(labels, fmt.Sprintf("fmt%d", s.Fmt))
